@@ -1,5 +1,6 @@
 import MgpuModel.Util
 import MgpuModel.Gen.Tables
+import MgpuModel.C09_Res
 /-! # C07 — architectural registers: the two register stores and the flat-cells spec
 
 Hand-written transcription (tie H, re-checked by the per-run correspondence) of
@@ -525,10 +526,83 @@ def initState (hdr : List String) : Option St :=
     | _, _, _ => none
   | _ => none
 
+/-! ## register windows from the resource allocator (`CUResourceImpl`, model: `MgpuModel/C09_Res.lean`)
+
+`c07 alloc <cu> ; r <key> <nwf> <s> <v> <l> ; f <key> ; …` — `ReserveResourceForWG` /
+`FreeResourcesForWG` calls on one registered CU; the answer ends with the register windows of all
+live wavefronts as the CU's dispatcher will create them (`wfdispatcher.go`: `SIMDID`, `SRegOffset`,
+`VRegOffset` := the `WfLocation`; `WFSgprCount` / `WIVgprCount` from the code object) and two
+decidable checks on them: inside the shipped register files, pairwise byte-disjoint. -/
+
+/-- the timing wavefronts of all resident work-groups, in reservation order -/
+def wfsOfCU (cu : C09.CU) : List TWf :=
+  cu.resident.flatMap fun e => e.2.2.map fun l =>
+    { simd := l.simd, soff := l.soff, voff := l.voff, ns := e.2.1.s, nv := e.2.1.v }
+
+/-- the wavefront's windows lie inside the scalar file / one lane row of a vector file of an
+    `nsimd`-SIMD compute unit -/
+def winInsideB (nsimd : Nat) (w : TWf) : Bool :=
+  decide (w.soff + 4 * w.ns ≤ 3200 * 4) && decide (w.voff + 4 * w.nv ≤ LANE_STRIDE) && decide (w.simd < nsimd)
+
+/-- the windows of two wavefronts share no byte (an empty window is disjoint from everything) -/
+def winDisjB (w w' : TWf) : Bool :=
+  (w.ns == 0 || w'.ns == 0 || decide (w.soff + 4 * w.ns ≤ w'.soff) || decide (w'.soff + 4 * w'.ns ≤ w.soff)) &&
+  (w.simd != w'.simd || w.nv == 0 || w'.nv == 0 || decide (w.voff + 4 * w.nv ≤ w'.voff) ||
+    decide (w'.voff + 4 * w'.nv ≤ w.voff))
+
+def allDisjB : List TWf → Bool
+  | [] => true
+  | w :: rest => rest.all (winDisjB w) && allDisjB rest
+
+def wfStr (w : TWf) : String := s!"{w.simd}:{w.soff}:{w.voff}:{w.ns}:{w.nv}"
+
+def allocOp (st : Option C09.CU × List String) (o : List String) : Option C09.CU × List String :=
+  match st.1 with
+  | none => (none, st.2 ++ ["X"])
+  | some cu =>
+    match o with
+    | ["r", k, a, b, c, d] =>
+      match k.toNat?, a.toNat?, b.toNat?, c.toNat?, d.toNat? with
+      | some key, some nwf, some s, some v, some l =>
+        match C09.reserve cu key { nwf := nwf, s := s, v := v, l := l } with
+        | (.ok locs, cu') => (some cu', st.2 ++ ["ok:" ++ C09.locsShow locs])
+        | (.no, cu') => (some cu', st.2 ++ ["no"])
+        | (.twice, _) => (none, st.2 ++ ["fault:twice"])
+      | _, _, _, _, _ => (some cu, st.2 ++ ["bad"])
+    | ["f", k] =>
+      match k.toNat? with
+      | some key =>
+        match C09.free cu key with
+        | some cu' => (some cu', st.2 ++ ["f"])
+        | none => (none, st.2 ++ ["fault:notfound"])
+      | none => (some cu, st.2 ++ ["bad"])
+    | _ => (some cu, st.2 ++ ["bad"])
+
+def handleAlloc (cfg : List String) (ops : List (List String)) : String :=
+  match cfg with
+  | [c] =>
+    match C09.parseCU c with
+    | none => "bad-cfg"
+    | some none => "fault:granularity"
+    | some (some cu) =>
+      let r := ops.foldl allocOp (some cu, [])
+      match r.1 with
+      | none => Util.joinWith " " (r.2 ++ ["dead"])
+      | some cu' =>
+        let ws := wfsOfCU cu'
+        Util.joinWith " " (r.2 ++ [
+          "wf=" ++ (if ws.isEmpty then "-" else Util.joinWith "," (ws.map wfStr)),
+          "inside=" ++ (if ws.all (winInsideB cu'.vmasks.length) then "1" else "0"),
+          "disjoint=" ++ (if allDisjB ws then "1" else "0")])
+  | _ => "bad-cfg"
+
 def handle (line : String) : String :=
   match splitTrim line ";" with
   | [] => "bad"
   | first :: rest =>
+    match words first with
+    | "c07" :: "alloc" :: cfg => handleAlloc cfg (rest.map words)
+    | _ =>
     match initState (words first) with
     | none => "bad"
     | some s =>
